@@ -8,7 +8,7 @@ from .. import apilevel as A, docx_builder as B, gen_xml, oracle_html as O
 from ..gen_xml import xml_json
 
 MAPS = ["comment-reference => sup", None, "comment-reference => sup\np.Quote => blockquote > p:fresh", "r.Hyperlink => span.link"]
-LINKS_HEADER = """From Mammoth Require Import EndToEndSpec LinksSpec.
+LINKS_HEADER = """From Mammoth Require Import EndToEndSpec LinksSpec LinkSpec.
 Definition chk_links (c : list (str * dpart) * bool * list (str * img_src) * api_opts * option (str * list str) * option (str * list str)) : bool :=
   let '(parts, named, linked, a, _, _) := c in
   let s := mkSource (package_of parts) named linked in
@@ -16,6 +16,10 @@ Definition chk_links (c : list (str * dpart) * bool * list (str * img_src) * api
   | Ok (d, _), Ok o => links_agree o d
   | _, _ => true
   end.
+Definition chk_linkitems (c : list (str * dpart) * bool * list (str * img_src) * api_opts * option (str * list str) * option (str * list str)) : bool :=
+  let '(parts, named, linked, a, _, _) := c in links_items_agree (mkSource (package_of parts) named linked).
+Definition chk_linkitems_domain (c : list (str * dpart) * bool * list (str * img_src) * api_opts * option (str * list str) * option (str * list str)) : bool :=
+  let '(parts, named, linked, a, _, _) := c in links_items_domain (mkSource (package_of parts) named linked).
 """
 HREF_FIELD = re.compile(r'^\s*HYPERLINK "([^"]*)"')
 ANCHOR_FIELD = re.compile(r'^\s*HYPERLINK\s+\\l\s+"([^"]*)"')
@@ -288,13 +292,17 @@ def run(ctx):
                         ctx.sample({"html": html.value[:300]})
             terms.append(A.case_term(parts, False, {}, opts, html, raw))
             metas.append(meta)
-    for i in ctx.coq_eval("c10", A.HEADER + LINKS_HEADER, terms, A.CASE_TYPE, "chk_api", shard=12, more=("chk_links",))[:5]:
+    for i in ctx.coq_eval("c10", A.HEADER + LINKS_HEADER, terms, A.CASE_TYPE, "chk_api", shard=12, more=("chk_links", "chk_linkitems", "chk_linkitems_domain"))[:5]:
         ctx.violation("correspondence", "model and implementation disagree",
                       dict(metas[i], obligation="correspondence Model/Api.v vs mammoth.convert_to_html"), False)
     # the statement of C10_note_links_resolve / C10_bookmarks_have_ids, evaluated on the model's forest for every generated package
     for i in ctx.more_bad["chk_links"][:5]:
         ctx.violation("proof", "a note reference or a bookmark of the document has no counterpart id / href in the forest (Proofs/LinksSpec.v: links_agree is false)",
                       dict(metas[i], obligation="Props/C10.v: C10_note_links_resolve / C10_bookmarks_have_ids evaluated on this package"), False)
+    for i in ctx.more_bad["chk_linkitems"][:5]:
+        ctx.violation("proof", "the links the reader attaches to the live items are not those the specification prescribes on the XML (Proofs/LinkSpec.v: links_items_agree is false)",
+                      dict(metas[i], obligation="Props/C10.v: C10_docx_links evaluated on this package"), False)
+    dist["in_reader_links_theorem_domain"] = len(terms) - len(ctx.more_bad["chk_linkitems_domain"])
     ctx.coverage["traces_validated_against_impl"] = len(terms)
     ctx.coverage["input_distribution"] = dist
     ctx.coverage["rule"] = ("packages with interleaved relationship / anchor / field-code hyperlinks (nested fields, split instruction text, \\\\o and \\\\t switches), "
